@@ -15,7 +15,7 @@ func init() {
 		Explanation: "(a) on every path of the two constraint front-ends (ParseCardConstrs, ParsePBConstrs) the panicking constructors are reached only with their precondition established (1 <= card, card <= len(lits) for cardinality constraints), so trivially true / trivially false constraints are handled and not rejected; " +
 			"(b) in every scan loop that may keep its cursor in place (parse-time simplifiers, AppendClause, GtEq) each trip round the loop advances the cursor or shrinks what is scanned, so every literal is accounted for exactly once.",
 		NotDecided: "the normalisation arithmetic, slack-based propagation, watch maintenance and the search itself; nothing is executed.",
-		Rules:      []ruleFn{ruleR2_1, ruleR2_2, ruleR2_3, ruleR2_4, ruleR2_5, ruleR2_6, ruleR2_7, ruleR2_8, ruleR2_9, ruleR9_7, ruleR2_10},
+		Rules:      []ruleFn{ruleR2_1, ruleR2_2, ruleR2_3, ruleR2_4, ruleR2_5, ruleR2_6, ruleR2_7, ruleR2_8, ruleR2_9, ruleR9_7, ruleR2_10, ruleR2_11},
 		Fixtures:   []func(*World) []string{fixtureE8, fixtureR2_2},
 	})
 }
@@ -981,6 +981,28 @@ func movedIntoCursor(w *World, ins ssa.Instruction, cursor ssa.Value) (string, b
 		}
 	case *ssa.Call:
 		c := y.Call.StaticCallee()
+		// a removing method handed the cursor (`clause.removeLit(i)`): it moves another element into that position when
+		// its body stores, at the index it is handed, an element read at another index
+		if c != nil && w.InModule(w.unwrap(c)) && len(y.Call.Args) == 2 && y.Call.Args[1] == cursor {
+			callee := w.unwrap(c)
+			moved := ""
+			allInstrs(callee, func(i2 ssa.Instruction) {
+				st, ok := i2.(*ssa.Store)
+				if !ok || len(callee.Params) != 2 {
+					return
+				}
+				ia, ok := st.Addr.(*ssa.IndexAddr)
+				if !ok || ia.Index != ssa.Value(callee.Params[1]) {
+					return
+				}
+				if idx, ok := elemFrom(st.Val); ok && idx != ssa.Value(callee.Params[1]) {
+					moved = "another position (inside " + w.FuncName(callee) + ")"
+				}
+			})
+			if moved != "" {
+				return moved, true
+			}
+		}
 		if c == nil || !w.InModule(w.unwrap(c)) || len(y.Call.Args) != 3 || y.Call.Args[1] != cursor {
 			return "", false
 		}
